@@ -1795,7 +1795,29 @@ def slice_path_field(node: ast.FunctionDef, tree) -> ast.FunctionDef:
             self.generic_visit(a)
             return a
 
-    sl = [_V().visit(st) for st in body[first:-1]]
+    # backward slice on `path`: a statement that only binds locals (plain names; assignments and ifs; no call, no store
+    # into an attribute or a subscript, nothing that can have an effect) and binds none that the path computation reads
+    # cannot influence `path` — e.g. `time_expansion = None; if obj.time_expansion != 1.0: time_expansion = …` — and is
+    # left out; everything else is kept (and makes the unit unreadable if the translator cannot read it)
+    def pure_local(st):
+        for z in ast.walk(st):
+            if isinstance(z, (ast.Call, ast.Await, ast.Yield, ast.YieldFrom, ast.NamedExpr, ast.Lambda, ast.Delete, ast.Raise, ast.Return,
+                              ast.For, ast.While, ast.With, ast.Try, ast.Import, ast.ImportFrom, ast.Global, ast.Nonlocal, ast.Assert,
+                              ast.FunctionDef, ast.ClassDef, ast.Break, ast.Continue)):
+                return False
+            if isinstance(z, (ast.Attribute, ast.Subscript, ast.Starred)) and isinstance(z.ctx, (ast.Store, ast.Del)):
+                return False
+        return isinstance(st, (ast.Assign, ast.AnnAssign, ast.AugAssign, ast.If, ast.Pass))
+
+    needed = {"path"}
+    kept = []
+    for st in reversed(body[first:-1]):
+        writes = {z.id for z in ast.walk(st) if isinstance(z, ast.Name) and isinstance(z.ctx, ast.Store)}
+        if (writes & needed) or not pure_local(st):
+            kept.append(st)
+            needed |= {z.id for z in ast.walk(st) if isinstance(z, ast.Name) and isinstance(z.ctx, ast.Load)}
+    kept.reverse()
+    sl = [_V().visit(st) for st in kept]
     for st in sl:
         for z in ast.walk(st):
             if isinstance(z, ast.Name) and z.id in ("self", "obj"):
